@@ -387,7 +387,8 @@ Proof.
     destruct (worker_thread_at _ _ _ _ Hlay Hk) as (thk & Hnk & Hrk).
     pose proof (RC _ _ Hnk) as Rk. rewrite Hrk in Rk.
     destruct (tpc thk) eqn:Epk; cbn in Rk; try discriminate;
-      try (exists (nex s + k); apply (always_enabled_ok _ _ _ _ Hnk (RC _ _ Hnk)); rewrite Epk; reflexivity).
+      try (exists (nex s + k); apply (always_enabled_ok _ _ _ _ Hnk (RC _ _ Hnk)); rewrite Epk; reflexivity);
+      try (exfalso; eapply (ex_one_task_per_scan _ _ _ Hr _ _ _ _ _ Hnk); exact Epk).
     + (* waiting on the global queue *)
       destruct (nth_error (slots (gq s)) q) as [[x|x|x]|] eqn:Eq.
       * destruct (ex_pend_has_holder _ _ _ Hr _ _ Eq) as (t1 & th1 & it1 & Hn1 & Htk1).
